@@ -1,7 +1,7 @@
 """C29 - USBMultibyteStreamInEndpoint serialises words little-endian, once, with first/last framing.
 
 DUT: real USBDevice(bus=UTMIInterface()) with one luna USBMultibyteStreamInEndpoint (byte_width 1..8,
-max packet size 8/16/32/64, endpoint number 1..15) added through add_endpoint().  The inner byte-wide
+max packet size 8/16/32/64/512, endpoint number 1..15) added through add_endpoint().  The inner byte-wide
 USBStreamInEndpoint created inside elaborate() is captured with the harness Registry, so that the byte stream
 between the shift FSM and the byte endpoint is observed directly.
 
@@ -23,7 +23,8 @@ Monitors / oracle (reference = the property statement, no luna code):
     must be the same byte sequence, and after the producer stops everything accepted must reach the inner stream
     and the host within a bounded number of IN polls.
 
-Not judged: stability of the inner payload while valid & ~ready, the packetisation itself (C11), the latency of
+Not judged: stability of the inner payload and the value of the inner first/last flags while valid & ~ready (the statement
+places the flags on bytes, i.e. on transfers; luna drives them only in the cycle the byte is taken), the packetisation itself (C11), the latency of
 anything.  The pacing rule is the literal reading of the statement; a design that buffered a second word would be
 reported (mechanism word_accepted_while_bytes_pending) and would need the statement to be revisited.
 """
@@ -32,7 +33,7 @@ from rv.usb2host import UTMIHost, init_device_signals
 from rv.ref import usb2 as U
 
 PROPERTY = "C29"
-CASES = {"quick": 360, "thorough": 6000}
+CASES = {"quick": 340, "thorough": 6000}
 RULE = ("case = (byte_width 1..8, max packet 8/16/32/64, endpoint 1..15, tx_ready profile, producer profile, host profile) "
         "+ 30-120 words with first/last/value/gap patterns and an IN-poll schedule with missing ACKs and pauses; "
         "non-trivial = words were stalled by a full byte endpoint, accepted back-to-back and carried first and last; "
@@ -40,7 +41,7 @@ RULE = ("case = (byte_width 1..8, max packet 8/16/32/64, endpoint 1..15, tx_read
 REQUIRED_BINS = ["width_1", "width_2", "width_3", "width_4", "width_5", "width_6", "width_7", "width_8",
                  "word_accepted_on_last_byte_cycle", "word_accepted_when_idle", "word_stalled_by_byte_endpoint",
                  "byte_stalled_mid_word", "word_first_only", "word_last_only", "word_first_and_last", "word_no_flags",
-                 "width_not_dividing_packet", "host_retry", "word_offered_mid_word", "high_bytes_zero", "repeated_word"]
+                 "width_not_dividing_packet", "host_retry", "word_offered_mid_word", "high_bytes_zero", "repeated_word", "mps_512"]
 REQUIRED_EVENTS = ["words_accepted", "inner_bytes_taken", "inner_first_seen", "inner_last_seen", "host_bytes_accepted",
                    "host_packets_accepted", "cycles_monitored"]
 ASSUMPTIONS = ["word stream obeys the stream contract: valid/payload/first/last held until ready",
@@ -120,12 +121,16 @@ def run_case(rng, tier, res):
     from luna.gateware.usb.usb2.endpoints.stream import USBMultibyteStreamInEndpoint, USBStreamInEndpoint
 
     width = rng.choice([1, 2, 3, 4, 5, 6, 7, 8])
-    mps = rng.choice([8, 8, 16, 32, 64])
+    mps = rng.choice([8, 8, 8, 16, 16, 32, 32, 64, 64, 512])
+    if mps == 512:
+        res.bin("mps_512")
     epn = rng.randint(1, 15)
     ready_profile = rng.choice(["always", "always", ("every", rng.randint(2, 5)), ("random", rng.choice([0.3, 0.6, 0.9])),
                                 ("bursty", rng.randint(2, 12), rng.randint(1, 10))])
     host_mode = rng.choice(["eager", "eager", "lazy", "bursts", "flaky"])
     nwords = rng.randint(30, 120) if tier == "quick" else rng.randint(30, 200)
+    if mps == 512:
+        nwords = rng.randint(600, 1300) // width + 20      # enough bytes to fill one or two 512-byte packets
     words, flag_mode, gap_mode = make_words(rng, width, nwords)
 
     utmi = UTMIInterface()
@@ -285,7 +290,7 @@ def run_case(rng, tier, res):
             if host_mode == "eager":
                 yield from host.idle(rng.randint(2, 10))
             elif host_mode == "lazy":
-                yield from host.idle(rng.randint(20, 40 + 12 * mps))
+                yield from host.idle(rng.randint(20, 40 + 12 * min(mps, 64)))
             elif host_mode == "bursts":
                 yield from host.idle(rng.choice([2, 3, 4, 6, rng.randint(100, 600)]))
             else:
